@@ -30,7 +30,7 @@ func init() {
 	engine.Register(&engine.Check{
 		ID:         "C11",
 		Technique:  "exhaustive enumeration of payload lengths and socket kinds on two real stacks in the deterministic world; explicit-state search over all interleavings of sends, reads, shutdown and close against a reference queue; stateless model checking (cooperative scheduler, all schedules) of concurrent readers versus packet delivery",
-		Rule:       "len: every payload length 0..1472 x {IPv4, IPv6, v4-mapped on a dual-stack socket} x sender kinds {bound *, bound specific, connected, unbound} x receiver kinds {bound *, bound specific, connected}; big: lengths {1473, 2000, 65507, 65508, 65527, 65528, 65535, 65536}; seq: all sequences of length <=6 over {send by sender 1/2 (sizes 0, 12000, 20000, 30000 bytes against the fixed 32 KiB receive buffer), read, shutdown(read), close} under receive-buffer pressure; coop: every schedule of 2 readers + 1 delivering thread; distinct = distinct input/sequence/schedule",
+		Rule:       "len: every payload length 0..1472 x {IPv4, IPv6, v4-mapped on a dual-stack socket} x sender kinds {bound *, bound specific, connected, unbound} x receiver kinds {bound *, bound specific, connected}; big: lengths {1473, 2000, 65507, 65508, 65527, 65528, 65535, 65536}; seq: all sequences of length <=6 over {send by sender 1/2 (sizes 0, 12000, 20000, 30000 bytes against the fixed 32 KiB receive buffer), read, shutdown(read), shutdown(write), shutdown(read+write), close} under receive-buffer pressure; coop: every schedule of 2 readers + 1 delivering thread; distinct = distinct input/sequence/schedule",
 		Assumes:    []string{"a datagram is accepted if it fits (queued bytes + its size <= buffer size); when it does not fit it may be dropped, whole"},
 		Jobs:       c11Jobs,
 		Run:        c11Run,
@@ -238,6 +238,7 @@ type c11Seq struct {
 	bytesQ  int
 	shut    bool
 	closed  bool
+	shutW   bool
 	counter int
 	names   []string
 	bufMax  int
@@ -246,7 +247,7 @@ type c11Seq struct {
 const c11Unit = 100
 
 func c11SeqAlphabet() []string {
-	return []string{"s1.send(12000)", "s1.send(20000)", "s2.send(12000)", "s2.send(30000)", "read", "shutdown(read)", "close", "s1.send(0)"}
+	return []string{"s1.send(12000)", "s1.send(20000)", "s2.send(12000)", "s2.send(30000)", "read", "shutdown(read)", "close", "s1.send(0)", "shutdown(write)", "shutdown(read+write)"}
 }
 
 func c11NewSeq() engine.SeqSys {
@@ -267,7 +268,10 @@ func (s *c11Seq) Enabled() []int {
 	}
 	en := []int{0, 1, 2, 3, 4, 7}
 	if !s.shut {
-		en = append(en, 5)
+		en = append(en, 5, 9)
+	}
+	if !s.shutW {
+		en = append(en, 8)
 	}
 	return append(en, 6)
 }
@@ -353,6 +357,16 @@ func (s *c11Seq) Apply(i int) *engine.Violation {
 			return bad("shutdown-failed", "%v", err)
 		}
 		s.shut = true
+	case 8:
+		if err := s.rcv.Shutdown(tcpip.ShutdownWrite); err != nil {
+			return bad("shutdown-failed", "%v", err)
+		}
+		s.shutW = true
+	case 9:
+		if err := s.rcv.Shutdown(tcpip.ShutdownRead | tcpip.ShutdownWrite); err != nil {
+			return bad("shutdown-failed", "%v", err)
+		}
+		s.shut, s.shutW = true, true
 	case 6:
 		s.rcv.Close()
 		s.closed = true
